@@ -236,6 +236,7 @@ func (e *Env) evalArgs(x *ast.CallExpr, sig *types.Signature) []Value {
 					e.assign("MemU", SMemU, Store(mu, ref, Store(Select(mu, ref), IntLit(int64(j)), e.box(e.coerce(v, st.Elem())))))
 				} else {
 					m := e.mem()
+					e.noteMemWrite(ref)
 					e.assign("Mem", SMem, Store(m, ref, Store(Select(m, ref), IntLit(int64(j)), v.T)))
 				}
 			}
@@ -298,6 +299,30 @@ func (e *Env) inlineCall(pkg *Pkg, fd *ast.FuncDecl, fn *types.Func, sig *types.
 		if len(p.Names) == 0 {
 			i++
 		}
+	}
+	// ghost clauses of an inlined callee's own contract run at their anchors inside the inlined body
+	if cfc := e.w.Cs.Funcs[funcKey(fn)]; cfc != nil {
+		ic := &inlCtx{fc: cfc, anchors: map[string]int{}, locals: map[string]types.Object{}}
+		if fd.Recv != nil && len(fd.Recv.List) == 1 {
+			if len(fd.Recv.List[0].Names) == 1 {
+				ic.paramObjs = append(ic.paramObjs, pkg.Info.Defs[fd.Recv.List[0].Names[0]])
+			} else {
+				ic.paramObjs = append(ic.paramObjs, nil)
+			}
+		}
+		for _, p := range fd.Type.Params.List {
+			for _, n := range p.Names {
+				ic.paramObjs = append(ic.paramObjs, pkg.Info.Defs[n])
+			}
+			if len(p.Names) == 0 {
+				ic.paramObjs = append(ic.paramObjs, nil)
+			}
+		}
+		e.inlFc = append(e.inlFc, ic)
+		defer func() { e.inlFc = e.inlFc[:len(e.inlFc)-1] }()
+	} else {
+		e.inlFc = append(e.inlFc, nil)
+		defer func() { e.inlFc = e.inlFc[:len(e.inlFc)-1] }()
 	}
 	fr := &inlineFrame{retB: e.newBlock("inline-ret"), sig: sig}
 	for j := 0; j < sig.Results().Len(); j++ {
@@ -427,6 +452,14 @@ func (e *Env) callFuncValue(x *ast.CallExpr, o *types.Var, rt types.Type) Value 
 
 // ---------------------------------------------------------------------
 // Calls by contract
+
+// inlCtx: the contract of a callee being inlined (only its anchored ghost assignments are run)
+type inlCtx struct {
+	fc        *FuncContract
+	paramObjs []types.Object
+	anchors   map[string]int
+	locals    map[string]types.Object
+}
 
 type ptrLeaf struct {
 	id *Term
@@ -648,6 +681,17 @@ func (e *Env) callContract(fc *FuncContract, key string, sig *types.Signature, r
 	if mayPanic || ms.panic {
 		e.panicVar()
 		snapshot("$panic", SBool)
+	}
+	// what the callee may write must be something this function may write
+	for _, r := range ms.roots {
+		e.noteObjWrite(r.T, nil)
+	}
+	for _, pl := range ms.ptrs {
+		lf := pl.lf
+		e.noteObjWrite(pl.id, &lf)
+	}
+	for _, rf := range ms.refs {
+		e.noteMemWrite(rf)
 	}
 	// havoc
 	for _, h := range havocs {
